@@ -383,64 +383,160 @@ def _same_path(fnode, line_a, line_b):
 
 
 # ------------------------------------------------------------- absorb-keyed
+def _record_stores(stmts):
+    """[(Assign, value)] stores info["cur_orthog"] = value directly in the statement list."""
+    out = []
+    for st in stmts:
+        if isinstance(st, ast.Assign) and isinstance(st.targets[0], ast.Subscript) and const_value(st.targets[0].slice, None) == "cur_orthog":
+            out.append(st)
+    return out
+
+
+def _pair_of(value):
+    if isinstance(value, ast.Tuple) and len(value.elts) == 2:
+        return src_of(value.elts[0]), src_of(value.elts[1])
+    return None
+
+
 def rule_absorb_keyed(ctx):
     r = RuleResult(
         "absorb-keyed",
-        "record stores that depend on where singular values were absorbed are keyed consistently: under "
-        "absorb == 'left' the recorded centre is the left (smaller) site of the pair that was split, under "
-        "'right' the right one; a store keyed on a compressor option (sweep_reverse) reads the same option "
-        "dictionary that is passed to the compressor",
+        "record stores that depend on where singular values were absorbed are keyed consistently (decided by def-use, not by "
+        "text): in swap_sites_with_compress the option consulted is read from the same dict that is passed to the split, and "
+        "under 'left' / 'right' the recorded centre is the site whose tensor receives the first / second split factor; in "
+        "gate_with_auto_swap the site that absorbs the singular values (first or second site of the gate's `where` according "
+        "to `absorb`) is the same in both orientations and is the recorded centre; in gate_with_submpo the store keyed on "
+        "sweep_reverse reads the dict passed to the compressor and records the two different ends of the compressed range",
     )
+    # ---- swap_sites_with_compress
     f = ctx.prog.func("quimb.tensor.tn1d.core", "TensorNetwork1DFlat.swap_sites_with_compress")
+    if f is None:
+        raise AnalysisError("swap_sites_with_compress not found")
     where = f"{f.module.relpath}:{f.lineno}"
+    split = None
+    for a in ast.walk(f.node):
+        if isinstance(a, ast.Assign) and isinstance(a.value, ast.Call) and isinstance(a.value.func, ast.Attribute) and a.value.func.attr == "split" \
+                and isinstance(a.targets[0], ast.Tuple) and len(a.targets[0].elts) == 2:
+            stars = [src_of(k.value) for k in a.value.keywords if k.arg is None]
+            split = ([e.id for e in a.targets[0].elts if isinstance(e, ast.Name)], stars)
+    if split is None or len(split[0]) != 2:
+        raise AnalysisError("swap_sites_with_compress: two-factor split not found")
+    (r0, r1), stars = split
+    # site whose tensor receives each factor:  T.modify(data=<factor>.data) ; Ti, Tj = tn[i], tn[j]
+    def site_of(res):
+        for c in ast.walk(f.node):
+            if isinstance(c, ast.Call) and isinstance(c.func, ast.Attribute) and c.func.attr == "modify" and isinstance(c.func.value, ast.Name):
+                for k in c.keywords:
+                    if k.arg == "data" and any(isinstance(x, ast.Name) and x.id == res for x in ast.walk(k.value)):
+                        tname = c.func.value.id
+                        for a in ast.walk(f.node):
+                            if isinstance(a, ast.Assign):
+                                t, v = a.targets[0], a.value
+                                if isinstance(t, ast.Tuple) and isinstance(v, ast.Tuple) and len(t.elts) == len(v.elts):
+                                    for te, ve in zip(t.elts, v.elts):
+                                        if isinstance(te, ast.Name) and te.id == tname and isinstance(ve, ast.Subscript):
+                                            return src_of(ve.slice)
+                                elif isinstance(t, ast.Name) and t.id == tname and isinstance(v, ast.Subscript):
+                                    return src_of(v.slice)
+        return None
+    s0, s1 = site_of(r0), site_of(r1)
+    if s0 is None or s1 is None:
+        raise AnalysisError("swap_sites_with_compress: cannot relate the split factors to sites")
+    # the consulted option
+    opt = None
+    for a in ast.walk(f.node):
+        if isinstance(a, ast.Assign) and isinstance(a.targets[0], ast.Name) and isinstance(a.value, ast.Call) and isinstance(a.value.func, ast.Attribute) \
+                and a.value.func.attr == "get" and a.value.args and const_value(a.value.args[0], None) == "absorb":
+            opt = (a.targets[0].id, src_of(a.value.func.value))
     got = {}
-    for n in ast.walk(f.node):
-        if isinstance(n, ast.If) and isinstance(n.test, ast.Compare) and src_of(n.test.left) == "absorb":
-            cur = n
-            while isinstance(cur, ast.If):
-                lit = const_value(cur.test.comparators[0], None)
-                for s in cur.body:
-                    if isinstance(s, ast.Assign) and isinstance(s.targets[0], ast.Subscript) and const_value(s.targets[0].slice, None) == "cur_orthog":
-                        got[lit] = src_of(s.value).replace(" ", "")
-                cur = cur.orelse[0] if len(cur.orelse) == 1 and isinstance(cur.orelse[0], ast.If) else None
-    # i, j = sorted((i, j)) establishes i < j; split puts sTi on site i
-    srt = any(isinstance(n, ast.Assign) and src_of(n).replace(" ", "") == "i,j=sorted((i,j))" for n in ast.walk(f.node))
-    if got.get("left") == "(i,i)" and got.get("right") == "(j,j)" and srt:
-        r.ok("swap_sites_with_compress[absorb]", sample={"left": "(i, i)", "right": "(j, j)", "order": "i, j = sorted((i, j))"})
+    if opt is not None:
+        for n in ast.walk(f.node):
+            if isinstance(n, ast.If) and isinstance(n.test, ast.Compare) and isinstance(n.test.left, ast.Name) and n.test.left.id == opt[0]:
+                lit = const_value(n.test.comparators[0], None)
+                for st in _record_stores(n.body):
+                    got[lit] = _pair_of(st.value)
+    if opt is None:
+        r.bad(Finding("absorb-keyed", f.qualname, "the record is not keyed on the `absorb` option of the split", where=where, operand="option"))
+    elif opt[1] not in stars:
+        r.bad(Finding("absorb-keyed", f.qualname, f"`absorb` is read from `{opt[1]}` but the split receives **{stars}: the record follows an option the split did not use", where=where, operand="option-source"))
     else:
-        r.bad(Finding("absorb-keyed", f.qualname, f"record stores keyed on absorb are {got} (sorted sites: {srt}); expected left->(i,i), right->(j,j)", where=where))
-    # the absorb the split actually used is the one consulted
-    src = " ".join(src_of(f.node).split())
-    if "Tij.split(left_inds, get='tensors', **compress_opts)" in src.replace('"', "'") and "absorb = compress_opts.get('absorb', None)" in src.replace('"', "'"):
-        r.ok("swap_sites_with_compress[same options]")
+        r.ok("swap_sites_with_compress[same options]", sample={"option read from": opt[1], "split receives": stars})
+    if got.get("left") == (s0, s0) and got.get("right") == (s1, s1):
+        r.ok("swap_sites_with_compress[absorb]", sample={"left": got.get("left"), "right": got.get("right"), "first factor ->": s0, "second factor ->": s1})
     else:
-        r.skip("swap_sites_with_compress[same options]", "shape changed")
+        r.bad(Finding("absorb-keyed", f.qualname,
+                      f"record stores keyed on absorb are {got}; the first split factor is written to site `{s0}` and the second to `{s1}`, so "
+                      f"'left' must record ({s0}, {s0}) and 'right' ({s1}, {s1})", where=where))
+    # ---- gate_with_submpo
     g = ctx.prog.func("quimb.tensor.tn1d.core", "MatrixProductState.gate_with_submpo")
+    if g is None:
+        raise AnalysisError("gate_with_submpo not found")
     where = f"{g.module.relpath}:{g.lineno}"
-    stores = {}
+    comp = [c for c in ast.walk(g.node) if isinstance(c, ast.Call) and (dotted(c.func) or "").split(".")[-1] == "tensor_network_1d_compress"]
+    comp_stars = {src_of(k.value) for c in comp for k in c.keywords if k.arg is None}
+    keyed = None
     for n in ast.walk(g.node):
-        if isinstance(n, ast.If) and "sweep_reverse" in src_of(n.test):
-            for branch, name in ((n.body, True), (n.orelse, False)):
-                for s in branch:
-                    if isinstance(s, ast.Assign) and isinstance(s.targets[0], ast.Subscript) and const_value(s.targets[0].slice, None) == "cur_orthog":
-                        stores[name] = src_of(s.value).replace(" ", "")
-            reads = src_of(n.test)
-    passes = any(isinstance(c, ast.Call) and dotted(c.func) == "tensor_network_1d_compress" and any(k.arg is None and src_of(k.value) == "compress_opts" for k in c.keywords) for c in ast.walk(g.node))
-    if stores.get(True) == "(sf,sf)" and stores.get(False) == "(si,si)" and "compress_opts" in reads and passes:
-        r.ok("gate_with_submpo[sweep_reverse]", sample={"sweep_reverse": "(sf, sf)", "default": "(si, si)", "options": "same compress_opts passed to the compressor"})
+        if isinstance(n, ast.If):
+            gets = [c for c in ast.walk(n.test) if isinstance(c, ast.Call) and isinstance(c.func, ast.Attribute) and c.func.attr == "get" and c.args and const_value(c.args[0], None) == "sweep_reverse"]
+            if gets and _record_stores(n.body) and _record_stores(n.orelse):
+                keyed = (src_of(gets[0].func.value), _pair_of(_record_stores(n.body)[0].value), _pair_of(_record_stores(n.orelse)[0].value))
+    if keyed is None:
+        raise AnalysisError("gate_with_submpo: record store keyed on sweep_reverse not found")
+    src_dict, rev, fwd = keyed
+    ends = None
+    for a in ast.walk(g.node):
+        if isinstance(a, ast.Assign) and isinstance(a.targets[0], ast.Tuple) and isinstance(a.value, ast.Tuple) and len(a.value.elts) == 2 \
+                and all(isinstance(v, ast.Call) and getattr(v.func, "id", None) in ("min", "max") for v in a.value.elts):
+            ends = {getattr(v.func, "id"): t.id for t, v in zip(a.targets[0].elts, a.value.elts) if isinstance(t, ast.Name)}
+    problems = []
+    if src_dict not in comp_stars:
+        problems.append(f"sweep_reverse is read from `{src_dict}` but the compressor receives **{sorted(comp_stars)}")
+    if not (rev and fwd and rev[0] == rev[1] and fwd[0] == fwd[1] and rev != fwd):
+        problems.append(f"the two orientations record {rev} / {fwd}; expected the two different ends of the range, each as (x, x)")
+    elif ends and not (fwd[0] == ends.get("min") and rev[0] == ends.get("max")):
+        problems.append(f"default sweep must leave the centre at the first site `{ends.get('min')}` and the reversed one at the last `{ends.get('max')}`; stores are {fwd} / {rev}")
+    if problems:
+        for pr in problems:
+            r.bad(Finding("absorb-keyed", g.qualname, pr, where=where, operand=pr[:30]))
     else:
-        r.bad(Finding("absorb-keyed", g.qualname, f"record stores keyed on sweep_reverse are {stores}; compressor receives compress_opts: {passes}", where=where))
+        r.ok("gate_with_submpo[sweep_reverse]", sample={"sweep_reverse": rev, "default": fwd, "options": f"same {src_dict} passed to the compressor"})
+    # ---- gate_with_auto_swap
     h = ctx.prog.func("quimb.tensor.tn1d.core", "MatrixProductState.gate_with_auto_swap")
-    src = " ".join(src_of(h.node).split()).replace('"', "'")
+    if h is None:
+        raise AnalysisError("gate_with_auto_swap not found")
     where = f"{h.module.relpath}:{h.lineno}"
-    ok = (
-        "final_gate_where = (i + 1, i) absorb = 'left'" in src and "final_gate_where = (i, i + 1) absorb = 'right'" in src
-        and "info['cur_orthog'] = (i + 1, i + 1)" in src
-    )
-    if ok:
-        r.ok("gate_with_auto_swap[absorb]", sample={"flipped": "where=(i+1, i), absorb=left", "normal": "where=(i, i+1), absorb=right", "record": "(i+1, i+1)"})
+    gs = [c for c in ast.walk(h.node) if isinstance(c, ast.Call) and isinstance(c.func, ast.Attribute) and c.func.attr in ("gate_split_", "gate_split")]
+    if len(gs) != 1:
+        raise AnalysisError("gate_with_auto_swap: the single gate_split_ call was not found")
+    kws = {k.arg: k.value for k in gs[0].keywords if k.arg}
+    wv, av = kws.get("where"), kws.get("absorb")
+    if not (isinstance(wv, ast.Name) and isinstance(av, ast.Name)):
+        raise AnalysisError("gate_with_auto_swap: where= / absorb= of gate_split_ are not locals")
+    centres = []
+    for n in ast.walk(h.node):
+        if isinstance(n, ast.If):
+            arms = []
+            for arm in (n.body, n.orelse):
+                wdef = [st.value for st in arm if isinstance(st, ast.Assign) and isinstance(st.targets[0], ast.Name) and st.targets[0].id == wv.id]
+                adef = [st.value for st in arm if isinstance(st, ast.Assign) and isinstance(st.targets[0], ast.Name) and st.targets[0].id == av.id]
+                if wdef and adef:
+                    arms.append((wdef[-1], adef[-1]))
+            if len(arms) == 2:
+                for wd, ad in arms:
+                    pair = _pair_of(wd)
+                    side = const_value(ad, None)
+                    if pair is None or side not in ("left", "right"):
+                        centres.append(None)
+                    else:
+                        centres.append(pair[0] if side == "left" else pair[1])
+    post = [st for st in h.node.body if isinstance(st, ast.Assign) and st.lineno > gs[0].lineno and isinstance(st.targets[0], ast.Subscript) and const_value(st.targets[0].slice, None) == "cur_orthog"]
+    rec = _pair_of(post[0].value) if post else None
+    if len(centres) == 2 and None not in centres and centres[0] == centres[1] and rec == (centres[0], centres[0]):
+        r.ok("gate_with_auto_swap[absorb]", sample={"absorbing site (both orientations)": centres[0], "record": rec})
     else:
-        r.bad(Finding("absorb-keyed", h.qualname, "absorb side and recorded centre (i+1) no longer match the gate orientation", where=where))
+        r.bad(Finding("absorb-keyed", h.qualname,
+                      f"the site that absorbs the singular values is {centres} in the two orientations and the record stored after the split is {rec}: "
+                      "they must all name the same site", where=where))
     return r
 
 
